@@ -11,6 +11,13 @@
    next, the clock, the value UpdateNextCheck computes (its arithmetic is SchNext.v), when flags
    of a checkable change, when the signal handlers connected to those changes get the mutex.
 
+   Check commands come in three kinds, chosen by the environment per execution (after the test-and-set):
+     synchronous  [SchATaskResult]   the command processes its result before Execute() returns;
+     asynchronous [SchATaskLaunch; SchAFlightDone; SchAFlightResult]   every plugin check: Execute() returns at once,
+                  the result arrives later on another thread - m_CheckRunning is the ONLY guard in between, because
+                  ExecuteCheckHelper has put the checkable back into the idle set;
+     remote       [SchATaskRemote]   command_endpoint set: the flag is released before ExecuteCheck returns.
+
    The idle / pending containers are boost::multi_index sets with a UNIQUE index on the object:
    [sch_insert] of an object that is already there leaves the container unchanged, [sch_erase]
    of an absent object is a no-op - exactly what the code relies on. *)
@@ -52,6 +59,10 @@ Record sch_state := {
   sch_pend : list (nat * Z);     (* m_PendingCheckables *)
   sch_pcount : Z;                (* Checkable::m_PendingChecks *)
   sch_tasks : list (nat * sch_tpc);   (* multiset of callbacks in the thread pool *)
+  sch_flights : list nat;        (* asynchronous executions whose command is still at work (plugin process alive):
+                                    ExecuteCheck() has long returned, the result has not arrived yet *)
+  sch_fdone : list nat;          (* asynchronous executions whose command has finished and whose completion callback
+                                    has counted the slot down but not yet entered ProcessCheckResult *)
   sch_pc : sch_spc;
   sch_clock : Z;
   sch_max : Z                    (* max_concurrent_checks *)
@@ -85,6 +96,17 @@ Definition sch_live (l : list (nat * sch_tpc)) : nat := length (filter sch_is_li
 Definition sch_is_run (t : nat * sch_tpc) : bool := sch_tpc_eqb (snd t) SchTRunning.
 Definition sch_runlist (l : list (nat * sch_tpc)) : list nat := map fst (filter sch_is_run l).
 
+(* ---- asynchronous executions as a multiset of checkable ids ---- *)
+Definition sch_fmem (c : nat) (l : list nat) : bool := existsb (Nat.eqb c) l.
+Fixpoint sch_frem1 (c : nat) (l : list nat) : list nat :=
+  match l with [] => [] | x :: r => if Nat.eqb c x then r else x :: sch_frem1 c r end.
+Fixpoint sch_fcnt (c : nat) (l : list nat) : nat :=
+  match l with [] => O | x :: r => ((if Nat.eqb c x then 1 else 0) + sch_fcnt c r)%nat end.
+(* tasks that still may start, or are inside, a synchronous command: they occupy a concurrency slot *)
+Definition sch_is_slot (t : nat * sch_tpc) : bool :=
+  match snd t with SchTQueued | SchTUpdated | SchTRunning => true | _ => false end.
+Definition sch_slots (l : list (nat * sch_tpc)) (fl : list nat) : nat := (length (filter sch_is_slot l) + length fl)%nat.
+
 (* ---- field updates ---- *)
 Definition sch_k_next (k : sch_ck) v := {| sch_next := v; sch_active := sch_active k; sch_paused := sch_paused k;
   sch_zone := sch_zone k; sch_force := sch_force k; sch_enable := sch_enable k; sch_period := sch_period k;
@@ -112,14 +134,16 @@ Definition sch_upd (f : nat -> sch_ck) (c : nat) (x : sch_ck) : nat -> sch_ck :=
   fun c' => if Nat.eqb c' c then x else f c'.
 
 Definition sch_s_cks s f := {| sch_cks := f; sch_idle := sch_idle s; sch_pend := sch_pend s; sch_pcount := sch_pcount s;
-  sch_tasks := sch_tasks s; sch_pc := sch_pc s; sch_clock := sch_clock s; sch_max := sch_max s |}.
+  sch_tasks := sch_tasks s; sch_flights := sch_flights s; sch_fdone := sch_fdone s; sch_pc := sch_pc s; sch_clock := sch_clock s; sch_max := sch_max s |}.
 Definition sch_s_sets s i p pc := {| sch_cks := sch_cks s; sch_idle := i; sch_pend := p; sch_pcount := sch_pcount s;
-  sch_tasks := sch_tasks s; sch_pc := pc; sch_clock := sch_clock s; sch_max := sch_max s |}.
+  sch_tasks := sch_tasks s; sch_flights := sch_flights s; sch_fdone := sch_fdone s; sch_pc := pc; sch_clock := sch_clock s; sch_max := sch_max s |}.
 Definition sch_s_tasks s t n := {| sch_cks := sch_cks s; sch_idle := sch_idle s; sch_pend := sch_pend s; sch_pcount := n;
-  sch_tasks := t; sch_pc := sch_pc s; sch_clock := sch_clock s; sch_max := sch_max s |}.
+  sch_tasks := t; sch_flights := sch_flights s; sch_fdone := sch_fdone s; sch_pc := sch_pc s; sch_clock := sch_clock s; sch_max := sch_max s |}.
 Definition sch_s_pc s pc := sch_s_sets s (sch_idle s) (sch_pend s) pc.
+Definition sch_s_fl s f d := {| sch_cks := sch_cks s; sch_idle := sch_idle s; sch_pend := sch_pend s; sch_pcount := sch_pcount s;
+  sch_tasks := sch_tasks s; sch_flights := f; sch_fdone := d; sch_pc := sch_pc s; sch_clock := sch_clock s; sch_max := sch_max s |}.
 Definition sch_s_clock s t := {| sch_cks := sch_cks s; sch_idle := sch_idle s; sch_pend := sch_pend s; sch_pcount := sch_pcount s;
-  sch_tasks := sch_tasks s; sch_pc := sch_pc s; sch_clock := t; sch_max := sch_max s |}.
+  sch_tasks := sch_tasks s; sch_flights := sch_flights s; sch_fdone := sch_fdone s; sch_pc := sch_pc s; sch_clock := t; sch_max := sch_max s |}.
 
 (* the condition ObjectHandler tests *)
 Definition sch_sched (k : sch_ck) : bool := sch_active k && negb (sch_paused k) && sch_zone k.
@@ -140,6 +164,16 @@ Inductive sch_act :=
 | SchATaskUpdate (c : nat) (v : Z)   (* ExecuteCheck: UpdateNextCheck() -> next_check := v *)
 | SchATaskTas (c : nat)              (* ObjectLock: if m_CheckRunning return; m_CheckRunning = true *)
 | SchATaskResult (c : nat) (v : Z)   (* check command done or threw; ProcessCheckResult: m_CheckRunning = false, next_check := v *)
+| SchATaskLaunch (c : nat)           (* ASYNCHRONOUS check command (PluginCheckTask::ScriptFunc): the plugin process is spawned,
+                                        m_PendingChecks++ (the task's own increment), Execute() and ExecuteCheck() return -
+                                        m_CheckRunning STAYS SET, the result is outstanding *)
+| SchAFlightDone (c : nat)           (* the process ended; callback on another thread (ProcessFinishedHandler): m_PendingChecks-- *)
+| SchAFlightResult (c : nat) (v : Z) (* ... then ProcessCheckResult: m_CheckRunning = false, next_check := v *)
+| SchATaskRemote (c : nat) (ov : option Z)
+                                     (* command_endpoint branch of ExecuteCheck: macros collected; connected: message sent,
+                                        SetNextCheck(now + timeout + 30) (ov = Some v); unconnected: UNKNOWN result processed
+                                        (ov = Some v) or nothing during the cold-start window (ov = None); in every case
+                                        m_CheckRunning = false BEFORE ExecuteCheck returns *)
 | SchATaskDecrease (c : nat)         (* m_StatsMutex: m_PendingChecks-- *)
 | SchATaskFinish (c : nat)           (* m_Mutex: if in pending: erase, re-insert into idle if IsActive() *)
 (* everybody else *)
@@ -212,6 +246,26 @@ Definition sch_exec (s : sch_state) (a : sch_act) : option sch_state :=
       then Some (sch_s_tasks (sch_s_cks s (sch_upd K c (sch_k_next (sch_k_running (K c) false) v)))
                              ((c, SchTReturned) :: sch_rem1 (c, SchTRunning) (sch_tasks s)) (sch_pcount s))
       else None
+  | SchATaskLaunch c =>
+      if sch_has (c, SchTRunning) (sch_tasks s)
+      then Some (sch_s_fl (sch_s_tasks s ((c, SchTReturned) :: sch_rem1 (c, SchTRunning) (sch_tasks s)) (sch_pcount s + 1))
+                          (c :: sch_flights s) (sch_fdone s))
+      else None
+  | SchAFlightDone c =>
+      if sch_fmem c (sch_flights s)
+      then Some (sch_s_fl (sch_s_tasks s (sch_tasks s) (sch_pcount s - 1)) (sch_frem1 c (sch_flights s)) (c :: sch_fdone s))
+      else None
+  | SchAFlightResult c v =>
+      if sch_fmem c (sch_fdone s)
+      then Some (sch_s_fl (sch_s_cks s (sch_upd K c (sch_k_next (sch_k_running (K c) false) v)))
+                          (sch_flights s) (sch_frem1 c (sch_fdone s)))
+      else None
+  | SchATaskRemote c ov =>
+      if sch_has (c, SchTRunning) (sch_tasks s)
+      then Some (sch_s_tasks (sch_s_cks s (sch_upd K c (sch_k_next (sch_k_running (K c) false)
+                                                          (match ov with Some v => v | None => sch_next (K c) end))))
+                             ((c, SchTReturned) :: sch_rem1 (c, SchTRunning) (sch_tasks s)) (sch_pcount s))
+      else None
   | SchATaskDecrease c =>
       if sch_has (c, SchTReturned) (sch_tasks s)
       then Some (sch_s_tasks s ((c, SchTDecr) :: sch_rem1 (c, SchTReturned) (sch_tasks s)) (sch_pcount s - 1))
@@ -262,7 +316,7 @@ Definition sch_init_ck (zone : bool) (next : Z) : sch_ck :=
      sch_enable := true; sch_period := true; sch_reach := true; sch_running := false; sch_owed := 0 |}.
 Definition sch_init (zone : nat -> bool) (next : nat -> Z) (max : Z) : sch_state :=
   {| sch_cks := fun c => sch_init_ck (zone c) (next c); sch_idle := []; sch_pend := []; sch_pcount := 0;
-     sch_tasks := []; sch_pc := SchSIdle; sch_clock := 0; sch_max := max |}.
+     sch_tasks := []; sch_flights := []; sch_fdone := []; sch_pc := SchSIdle; sch_clock := 0; sch_max := max |}.
 
 (* ---- observations (what the harness records) ----
    checkable ids are Z in events (binary: the oracle has to be fast on hundreds of checkables) *)
@@ -279,6 +333,8 @@ Definition sch_observe (s : sch_state) (a : sch_act) : list sch_ev :=
   match a with
   | SchATaskTas c => if sch_running (sch_cks s c) then [] else [SchEvStart (sch_zid c)]
   | SchATaskResult c _ => [SchEvEnd (sch_zid c)]
+  | SchATaskRemote c _ => [SchEvEnd (sch_zid c)]
+  | SchAFlightDone c => [SchEvEnd (sch_zid c)]
   | SchASnap cs =>
       [SchEvSnap (map (fun p => sch_zid (fst p)) (sch_idle s)) (map (fun p => sch_zid (fst p)) (sch_pend s))
          (map (fun c => (sch_zid c, sch_sched (sch_cks s c)))
@@ -327,3 +383,37 @@ Fixpoint sch_oracle_from (max : Z) (running : list Z) (idx : Z) (t : list sch_ev
   end.
 
 Definition sch_oracle (max : Z) (t : list sch_ev) : option (Z * Z) := sch_oracle_from max [] 0 t.
+
+(* ---- forced checks: where force_next_check is cleared ----
+   observable on the implementation: OnForceNextCheckChanged with the new value false (the scheduler consumed a force
+   request) and the entry of ExecuteCheck (SetLastCheckStarted is its first statement).  In the code as modelled the
+   clear sits between the insertion into the pending set and QueueAsyncCallback, so every clear is FOLLOWED by the
+   entry of the ExecuteCheck it belongs to.  [sch_owe_from n c t] counts the clears of c in t that no later entry of c
+   has matched; it must be 0 once the scheduler is outside PostB/PostC and no callback of c is waiting in the pool. *)
+Inductive sch_fev :=
+| SchFClear (c : Z)     (* force_next_check of c set to false *)
+| SchFEnter (c : Z).    (* ExecuteCheck of c entered *)
+
+Definition sch_fobserve (s : sch_state) (a : sch_act) : list sch_fev :=
+  match a with
+  | SchAClearForce => match sch_pc s with SchSPostA c true => [SchFClear (sch_zid c)] | _ => [] end
+  | SchATaskUpdate c _ => [SchFEnter (sch_zid c)]
+  | _ => []
+  end.
+
+Fixpoint sch_ftrace (s : sch_state) (l : list sch_act) : list sch_fev :=
+  match l with
+  | [] => []
+  | a :: r => match sch_exec s a with Some s' => sch_fobserve s a ++ sch_ftrace s' r | None => [] end
+  end.
+
+Fixpoint sch_owe_from (n : nat) (c : Z) (t : list sch_fev) : nat :=
+  match t with
+  | [] => n
+  | SchFClear c' :: r => sch_owe_from (if Z.eqb c' c then S n else n) c r
+  | SchFEnter c' :: r => sch_owe_from (if Z.eqb c' c then pred n else n) c r
+  end.
+
+(* first checkable of cs with a clear that was never followed by its ExecuteCheck *)
+Definition sch_force_oracle (cs : list Z) (t : list sch_fev) : option Z :=
+  find (fun c => negb (Nat.eqb (sch_owe_from 0 c t) 0)) cs.
